@@ -135,7 +135,7 @@ def plan(tier):
     ex = explore_cfgs(tier)
     # heavy explorations first so that they overlap with the schedule shards
     ex.sort(key=lambda ce: -(ce[0]["N"] + (3 if ce[0].get("form", "none") != "none" else 0)))
-    nex = 10 if tier == "quick" else 40
+    nex = 16 if tier == "quick" else 40
     for i in range(nex):
         mine = ex[i::nex]
         if mine:
